@@ -11,7 +11,7 @@ extern const int c12_off_lbrr_coded, c12_off_voice_ratio, c12_off_force_channels
 
 enum { KE_ENC=0, KE_MS=1, KE_PROJ=2 };
 static int g_kid;
-typedef struct { const char *name; int fs,ch,app; int surround_family; int streams,coupled; unsigned char mapping[8]; } ebase;
+typedef struct { const char *name; int fs,ch,app; int surround_family; int streams,coupled; unsigned char mapping[8]; char namebuf[96]; } ebase;
 #define VOIP OPUS_APPLICATION_VOIP
 #define AUDIO OPUS_APPLICATION_AUDIO
 #define RLD OPUS_APPLICATION_RESTRICTED_LOWDELAY
@@ -23,23 +23,36 @@ static ebase EB_ENC[]={
    {"OpusEncoder 24000 Hz stereo VOIP",24000,2,VOIP},
    {"OpusEncoder 8000 Hz mono AUDIO",8000,1,AUDIO},
 };
-static ebase EB_MS[]={
+static ebase EB_MS[64]={
    {"OpusMSEncoder 48000 Hz 3ch (1 coupled + 1 mono stream) AUDIO",48000,3,AUDIO,-1,2,1,{0,1,2}},
    {"OpusMSEncoder 16000 Hz 3ch (1 coupled + 1 mono stream) VOIP",16000,3,VOIP,-1,2,1,{0,1,2}},
    {"OpusMSEncoder surround family 1, 48000 Hz 6ch (5.1) AUDIO",48000,6,AUDIO,1},
    {"OpusMSEncoder ambisonics family 2, 48000 Hz 4ch AUDIO",48000,4,AUDIO,2},
 };
-static ebase EB_PROJ[]={
+static int N_EB_MS=4;
+static ebase EB_PROJ[16]={
    {"OpusProjectionEncoder family 3, 48000 Hz 4ch (FOA) AUDIO",48000,4,AUDIO,3},
    {"OpusProjectionEncoder family 3, 16000 Hz 4ch (FOA) VOIP",16000,4,VOIP,3},
 };
+static int N_EB_PROJ=2;
+/* every (mapping family, channel count) pair the creation functions accept in the small range: the decision structure of
+ * opus_multistream_surround_encoder_{get_size,init,create} (family 0: 1-2 ch; family 1: 1-8 ch; family 255: 1-4 ch;
+ * ambisonics family 2: 4,6,9,11 ch) and of opus_projection_ambisonics_encoder_* (family 3: 4,6,9,11 ch) */
+static void add_layout_bases(void){
+   static const int amb[4]={4,6,9,11}; int c,i;
+   for(c=1;c<=2;c++){ ebase *e=&EB_MS[N_EB_MS++]; memset(e,0,sizeof *e); e->fs=48000; e->ch=c; e->app=AUDIO; e->surround_family=0; snprintf(e->namebuf,sizeof e->namebuf,"OpusMSEncoder surround_encoder family 0, 48000 Hz %dch AUDIO",c); e->name=e->namebuf; }
+   for(c=1;c<=8;c++){ ebase *e=&EB_MS[N_EB_MS++]; memset(e,0,sizeof *e); e->fs=48000; e->ch=c; e->app=(c&1)?AUDIO:VOIP; e->surround_family=1; snprintf(e->namebuf,sizeof e->namebuf,"OpusMSEncoder surround_encoder family 1, 48000 Hz %dch %s",c,(c&1)?"AUDIO":"VOIP"); e->name=e->namebuf; }
+   for(c=1;c<=4;c++){ ebase *e=&EB_MS[N_EB_MS++]; memset(e,0,sizeof *e); e->fs=c==3?16000:48000; e->ch=c; e->app=AUDIO; e->surround_family=255; snprintf(e->namebuf,sizeof e->namebuf,"OpusMSEncoder surround_encoder family 255, %d Hz %dch AUDIO",e->fs,c); e->name=e->namebuf; }
+   for(i=0;i<4;i++){ ebase *e=&EB_MS[N_EB_MS++]; memset(e,0,sizeof *e); e->fs=48000; e->ch=amb[i]; e->app=AUDIO; e->surround_family=2; snprintf(e->namebuf,sizeof e->namebuf,"OpusMSEncoder surround_encoder family 2 (ambisonics), 48000 Hz %dch AUDIO",amb[i]); e->name=e->namebuf; }
+   for(i=0;i<4;i++){ ebase *e=&EB_PROJ[N_EB_PROJ++]; memset(e,0,sizeof *e); e->fs=48000; e->ch=amb[i]; e->app=AUDIO; e->surround_family=3; snprintf(e->namebuf,sizeof e->namebuf,"OpusProjectionEncoder family 3, 48000 Hz %dch AUDIO",amb[i]); e->name=e->namebuf; }
+}
 static ebase *EB; static int NEB;
 static const char *eb_name(int b){ return EB[b].name; }
 
 static size_t e_size(int b){ const ebase *e=&EB[b];
    if (g_kid==KE_ENC) return (size_t)opus_encoder_get_size(e->ch);
    if (g_kid==KE_PROJ) return (size_t)opus_projection_ambisonics_encoder_get_size(e->ch,e->surround_family);
-   if (e->surround_family>=0 && e->surround_family!=-1) return (size_t)opus_multistream_surround_encoder_get_size(e->ch,e->surround_family);
+   if (e->surround_family!=-1) return (size_t)opus_multistream_surround_encoder_get_size(e->ch,e->surround_family);
    return (size_t)opus_multistream_encoder_get_size(e->streams,e->coupled);
 }
 static int e_init(void *obj,int b){ const ebase *e=&EB[b]; int st,cp; unsigned char map[256];
@@ -68,7 +81,7 @@ static int e_ctl_0(void *o,int req){
 }
 
 /* PCM of every encode op, per base (fixed content: an op is a pure function of (state, op)) */
-static short *g_pcm[8][MAXOPS];
+static short *g_pcm[64][MAXOPS];
 static unsigned char *g_out; static int g_outcap;
 static void e_apply(void *obj,int b,const opdef *op,obs_t *o){
    const ebase *e=&EB[b];
@@ -97,12 +110,12 @@ static void e_getters(void *obj,int b,obs_t *o){
 }
 
 /* sub-encoder offsets inside an object (for the white-box cause naming) */
-static int g_nsub[8]; static long g_suboff[8][8];
+static int g_nsub[64]; static long g_suboff[64][16];
 static void find_subs(int b){
    size_t n=e_size(b); unsigned char *blk=malloc(n); int s;
    if (e_init(blk,b)!=OPUS_OK){ fprintf(stderr,"c12: init failed for %s\n",EB[b].name); exit(2); }
    if (g_kid==KE_ENC){ g_nsub[b]=1; g_suboff[b][0]=0; }
-   else for(s=0;s<8;s++){ OpusEncoder *e=NULL; int r= g_kid==KE_PROJ? opus_projection_encoder_ctl((OpusProjectionEncoder*)blk,OPUS_MULTISTREAM_GET_ENCODER_STATE(s,&e)) : opus_multistream_encoder_ctl((OpusMSEncoder*)blk,OPUS_MULTISTREAM_GET_ENCODER_STATE(s,&e));
+   else for(s=0;s<16;s++){ OpusEncoder *e=NULL; int r= g_kid==KE_PROJ? opus_projection_encoder_ctl((OpusProjectionEncoder*)blk,OPUS_MULTISTREAM_GET_ENCODER_STATE(s,&e)) : opus_multistream_encoder_ctl((OpusMSEncoder*)blk,OPUS_MULTISTREAM_GET_ENCODER_STATE(s,&e));
       if (r!=OPUS_OK||!e) break; g_suboff[b][s]=(long)((unsigned char*)e-blk); g_nsub[b]=s+1; }
    free(blk);
 }
@@ -137,15 +150,15 @@ int main(int argc,char **argv){
    const char *kind; int alpha,i,b; const char *bases;
    mc_init(argc,argv,"C12","enc");
    engine_replay_outdir();
+   add_layout_bases();
    kind=mc_arg_s("--kind","enc"); MC.part=mc_arg_s("--part",kind);
    alpha=(int)mc_arg("--alpha",MC.tier?1:0);
    if (!strcmp(kind,"enc")){ g_kid=KE_ENC; EB=EB_ENC; NEB=sizeof EB_ENC/sizeof EB_ENC[0]; KIND_E.name="encoder"; }
-   else if (!strcmp(kind,"msenc")){ g_kid=KE_MS; EB=EB_MS; NEB=sizeof EB_MS/sizeof EB_MS[0]; KIND_E.name="ms_encoder"; }
-   else if (!strcmp(kind,"projenc")){ g_kid=KE_PROJ; EB=EB_PROJ; NEB=sizeof EB_PROJ/sizeof EB_PROJ[0]; KIND_E.name="projection_encoder"; }
+   else if (!strcmp(kind,"msenc")){ g_kid=KE_MS; EB=EB_MS; NEB=N_EB_MS; KIND_E.name="ms_encoder"; }
+   else if (!strcmp(kind,"projenc")){ g_kid=KE_PROJ; EB=EB_PROJ; NEB=N_EB_PROJ; KIND_E.name="projection_encoder"; }
    else { fprintf(stderr,"unknown --kind %s\n",kind); return 2; }
    KIND_E.nbases=NEB; K=&KIND_E;
-   bases=mc_arg_s("--bases","0"); g_nbsel=0;
-   for(i=0;bases[i];i++) if(bases[i]>='0'&&bases[i]<='9'&&bases[i]-'0'<NEB) g_bsel[g_nbsel++]=bases[i]-'0';
+   bases=mc_arg_s("--bases","0"); engine_parse_bases(bases,NEB);
 
    /* ---- alphabet ---- */
    NOPS=0;
@@ -185,10 +198,15 @@ int main(int argc,char **argv){
       add_op("ctl(FORCE_MODE=CELT_ONLY)",OP_SET,OPUS_SET_FORCE_MODE_REQUEST,1002,0,0);
       add_op("ctl(OPUS_RESET_STATE)",OP_RESET,0,0,0,0);
    }
+   if (alpha<=-2){ /* minimal alphabet for the creation-path (layout) bases: 1-2 encodes, reset, encode */
+      NOPS=0; add_enc(SIG_SPEECH,200); add_enc(SIG_NOISE,100);
+      add_op("ctl(BITRATE=18000)",OP_SET,OPUS_SET_BITRATE_REQUEST,(int)mc_arg("--rate-lo",18000),0,0);
+      add_op("ctl(OPUS_RESET_STATE)",OP_RESET,0,0,0,0);
+   }
    /* fix up the names of the bitrate ops if overridden */
    for(i=0;i<NOPS;i++) if(OPS[i].type==OP_SET&&OPS[i].a==OPUS_SET_BITRATE_REQUEST) snprintf(OPS[i].name,sizeof OPS[i].name,"ctl(BITRATE=%d)",OPS[i].b);
 
-   g_outcap = g_kid==KE_ENC?1500:6000;
+   g_outcap = g_kid==KE_ENC?1500:16000;
    for(i=0;i<g_nbsel;i++){ int op; b=g_bsel[i]; find_subs(b);
       for(op=0;op<NOPS;op++) if(OPS[op].type==OP_IO){ siggen g; int fsz=(int)((long)EB[b].fs*OPS[op].b/10000), skip=EB[b].fs/4; short *tmp=malloc(sizeof(short)*(size_t)(skip+fsz)*EB[b].ch);
          sig_init(&g,OPS[op].a,EB[b].fs,EB[b].ch,(uint32_t)(OPS[op].a*7+3)); sig_gen(&g,tmp,skip+fsz);
